@@ -29,6 +29,9 @@ const (
 	topNotification
 	topRPCInputImplicit  // rpc that writes no input: only an augment can put something there
 	topRPCOutputImplicit // rpc that writes no output
+	topActGrpInput       // input of an action that sits in a grouping of another module, used in container root (and root2)
+	topActGrpOutput      // its output
+	topActGrpImplicit    // the action writes neither: only an augment can fill the input of ONE of the two copies
 	nTops
 )
 
@@ -163,6 +166,10 @@ func (sc *hcSchema) topSteps() ([]string, []string) {
 		return []string{"r", "output"}, []string{"m", "m"}
 	case topNotification:
 		return []string{"nt"}, []string{"m"}
+	case topActGrpInput, topActGrpImplicit:
+		return []string{"root", "act", "input"}, []string{"m", "m", "m"}
+	case topActGrpOutput:
+		return []string{"root", "act", "output"}, []string{"m", "m", "m"}
 	}
 	return []string{"root"}, []string{"m"}
 }
@@ -202,10 +209,10 @@ func hcGenerate(n int) *hcSchema {
 				lv.extraCfg = symChoice(3)
 			}
 		}
-		if i == 0 && (sc.top == topRPCInputImplicit || sc.top == topRPCOutputImplicit) {
+		if i == 0 && (sc.top == topRPCInputImplicit || sc.top == topRPCOutputImplicit || sc.top == topActGrpImplicit) {
 			assume(lv.op == opAugment || lv.op == opAugment2 || lv.op == opAugmentSub) // nothing is written there inline
 		}
-		if i == 0 && (sc.top == topRPCInputImplicit || sc.top == topRPCOutputImplicit) && lv.op == opAugmentSub {
+		if i == 0 && (sc.top == topRPCInputImplicit || sc.top == topRPCOutputImplicit || sc.top == topActGrpImplicit) && lv.op == opAugmentSub {
 			// allowed: the submodule may fill the unwritten input/output, too
 		}
 		if lv.op == opAugmentSub {
@@ -259,7 +266,8 @@ func hcGenerate(n int) *hcSchema {
 			break
 		}
 	}
-	body := sc.gen(0, false)
+	inG2Top := sc.top == topActGrpInput || sc.top == topActGrpOutput
+	body := sc.gen(0, inG2Top)
 	switch sc.top {
 	case topModule:
 		sc.mBody += "container root { " + body + "} "
@@ -273,6 +281,15 @@ func hcGenerate(n int) *hcSchema {
 		sc.mBody += "notification nt { " + body + "} "
 	case topRPCInputImplicit, topRPCOutputImplicit:
 		sc.mBody += "rpc r { } "
+	case topActGrpInput:
+		sc.gBody += "grouping gact { action act { input { " + sc.gen0InG2(body) + "} } } "
+		sc.mBody += "container root { uses g2:gact; } container root2 { uses g2:gact; } "
+	case topActGrpOutput:
+		sc.gBody += "grouping gact { action act { output { " + sc.gen0InG2(body) + "} } } "
+		sc.mBody += "container root { uses g2:gact; } container root2 { uses g2:gact; } "
+	case topActGrpImplicit:
+		sc.gBody += "grouping gact { action act; } "
+		sc.mBody += "container root { uses g2:gact; } container root2 { uses g2:gact; } "
 	}
 	sc.texts = []string{
 		`module m { yang-version 1.1; namespace "urn:m"; prefix m; import g2 { prefix g2; } include s; ` + sc.mBody + `}`,
@@ -283,6 +300,9 @@ func hcGenerate(n int) *hcSchema {
 	}
 	return sc
 }
+
+// gen0InG2 is the identity: the body of a grouping-hosted top was generated for module g2 already.
+func (sc *hcSchema) gen0InG2(body string) string { return body }
 
 // hcWalk follows step names from the tree of module m using Dir and RPC input/output only.
 func hcWalk(ms *Modules, steps []string) *Entry {
@@ -315,5 +335,5 @@ func (sc *hcSchema) hcExpectRO(k int) bool {
 			return true
 		}
 	}
-	return sc.top == topRPCOutput || sc.top == topRPCOutputImplicit
+	return sc.top == topRPCOutput || sc.top == topRPCOutputImplicit || sc.top == topActGrpOutput
 }
